@@ -4,7 +4,26 @@ fn(case) -> {"nontrivial": bool, "outcome": str, "violations": [{"kind","detail"
 import collections, json
 from . import parallel, harness
 
+LAST = None       # (cases, fn) of the most recent run, for re-executing a stripe prefix
+
+def reexec_prefix(ctx):
+    """re-run, in a fresh forked child, the cases that preceded a violating case in its stripe (same order), then the case
+    itself; -> violation kinds of the last case.  Used when a violation does not reproduce in isolation: the library then
+    carries state between calls (a cache, a hoisted buffer) and the *sequence* is the counterexample."""
+    cases, fn = LAST
+    a, b, c = ctx["stripe"]; idx = ctx["index"]
+    def work(_):
+        kinds = []
+        for i in range(a, idx + 1, c):
+            with harness.quiet():
+                r = fn(cases[i])
+            if i == idx: kinds = [v["kind"] for v in r.get("violations", [])]
+        return kinds
+    return parallel.run_chunks(work, [(0,), (1,)], 2)[0]
+
 def run_cases(cases, fn, nproc=None, max_samples=8, rot=None):
+    global LAST
+    LAST = (cases, fn)
     n = len(cases)
     harness.torch()      # import before forking
     rot = harness.SEED if rot is None else rot
@@ -22,7 +41,7 @@ def run_cases(cases, fn, nproc=None, max_samples=8, rot=None):
                 nt.add(harness.digest(case))
             outcomes[r.get("outcome", "ok")] += 1
             for v in r.get("violations", []):
-                viols.append({"kind": v["kind"], "detail": v.get("detail", ""), "case": case})
+                viols.append({"kind": v["kind"], "detail": v.get("detail", ""), "case": case, "ctx": {"stripe": [a, b, c], "index": i}})
             if len(samples) < 2 and r.get("nontrivial"):
                 samples.append(case)
         return ev, nt, viols, outcomes, samples
